@@ -3,7 +3,7 @@ from typing import Dict
 
 from pydbml.classes import Project
 from pydbml.renderer.dbml.default.renderer import DefaultDBMLRenderer
-from pydbml.renderer.dbml.default.utils import comment_to_dbml, name_to_dbml, prepare_line_for_dbml, prepare_text_for_dbml
+from pydbml.renderer.dbml.default.utils import comment_to_dbml, indent_text, name_to_dbml, prepare_line_for_dbml, prepare_text_for_dbml
 from pydbml.tools import doublequote_string
 
 
@@ -24,6 +24,6 @@ def render_project(model: Project) -> str:
     result += f'Project {quoted_name} {{\n'
     result += render_items(model.items)
     if model.note:
-        result += indent(DefaultDBMLRenderer.render(model.note), '    ') + '\n'
+        result += indent_text(DefaultDBMLRenderer.render(model.note), '    ') + '\n'
     result += '}'
     return result
